@@ -25,12 +25,16 @@ func (P) Rule() string {
 		"(EOF 0/1/2, empty fragments, unknown channel, over capacity, oversize packet) to a real MConnection. hs: MakeSecretConnection under a man in the " +
 		"middle (bit flips in every region of all four handshake messages, key/signature substitution, replay, reflection, swap, drop, " +
 		"both messages of one direction coalesced into one segment). " +
+		"switch: a real libs/p2p Switch (NewP2pManager + a harness Listener); the harness dials in as key holders A..F: honest NodeInfo, another key's " +
+		"(impersonation), the switch's own key, forged CachePeerID, undecodable / no NodeInfo, other network / version / bad moniker, MarkBadNode, disconnects; " +
+		"every case ends with honest attempts of the key holders. " +
 		"non-trivial = a stream case that crosses a frame boundary or reads with a buffer smaller than a frame; a mux case with >= 2 channels or a " +
 		"multi-packet message; any tampered handshake; distinct = distinct op sequence"
 }
 
 type exec struct {
-	sp *scPair
+	sp  *scPair
+	sws *swState
 }
 
 func (P) NewExec() hx.Executor { return &exec{} }
@@ -40,6 +44,10 @@ func (e *exec) closeAll() {
 		e.sp.ea.Close()
 		e.sp.eb.Close()
 		e.sp = nil
+	}
+	if e.sws != nil {
+		e.sws.close()
+		e.sws = nil
 	}
 }
 
@@ -57,6 +65,8 @@ func (e *exec) Exec(op string) string {
 		return e.mrawOp(toks)
 	case "hs":
 		return e.hsOp(toks)
+	case "swnew", "swblack", "swconn", "swdrop":
+		return e.swOp(toks)
 	}
 	return "bad-op"
 }
@@ -77,6 +87,7 @@ func ansArg(ans, key string) string {
 
 func (P) Monitor(c *hx.CaseRun) []hx.Failure {
 	var fs []hx.Failure
+	swBlack, swPeers := map[string]bool{}, map[string]bool{}
 	// --- stream: per direction, what was written and how far the reader got
 	type dirSt struct {
 		written []byte
@@ -164,7 +175,58 @@ func (P) Monitor(c *hx.CaseRun) []hx.Failure {
 			fs = append(fs, monitorMraw(toks, ans)...)
 		case "hs":
 			fs = append(fs, monitorHS(toks, ans)...)
+		case "swnew":
+			swBlack, swPeers = map[string]bool{}, map[string]bool{}
+			if ans != "ok" {
+				fs = append(fs, fail("switch_live", "switch-not-started", sitePS, "the switch under test did not start: "+ans))
+			}
+		case "swblack":
+			swBlack[argS(toks, "key")] = true
+		case "swdrop":
+			swPeers = peerSetOf(ansArg(ans, "peers"))
+		case "swconn":
+			fs = append(fs, monitorSwConn(toks, ans, swBlack, swPeers)...)
+			swPeers = peerSetOf(ansArg(ans, "peers"))
 		}
+	}
+	return fs
+}
+
+const sitePS = "libs/p2p/switch.go:addPeer"
+
+func peerSetOf(s string) map[string]bool {
+	m := map[string]bool{}
+	for _, n := range hx.SplitComma(s) {
+		m[n] = true
+	}
+	return m
+}
+
+// peer_identity_is_authenticated_key: a peer is never added under an ID whose key is not the key its connection
+// authenticated; a key the switch blacklisted is never admitted (whatever CachePeerID it sends); an honest, compatible, not yet connected, not blacklisted
+// key holder is admitted whatever other key holders did before (no ID squatting).
+func monitorSwConn(toks []string, ans string, black, peers map[string]bool) []hx.Failure {
+	var fs []hx.Failure
+	auth, claim := argS(toks, "auth"), argS(toks, "claim")
+	added := ansArg(ans, "added") == "true"
+	if added && ansArg(ans, "id") != auth {
+		fs = append(fs, fail("peer_identity_is_authenticated_key", "peer-id-not-authenticated", sitePS,
+			fmt.Sprintf("a connection authenticated as %s was added to the peer set under the node ID of key %s", auth, ansArg(ans, "id"))))
+	}
+	if added && black[auth] {
+		fs = append(fs, fail("blacklisted_key_never_admitted", "blacklist-bypass-cached-peer-id", sitePS,
+			fmt.Sprintf("key %s is blacklisted (MarkBadNode) but its connection was admitted (claimed CachePeerID of %s)", auth, argS(toks, "cache"))))
+	}
+	honest := claim == auth && auth != "S" && argS(toks, "cache") == "" && argS(toks, "net") == "" && argS(toks, "ver") == "" && argS(toks, "mon") == ""
+	if honest && !black[auth] && !peers[auth] && !added {
+		cl := "honest-peer-refused"
+		if ansArg(ans, "why") == "duplicate" {
+			cl = "peer-id-not-authenticated" // its ID is occupied by somebody else's connection
+		}
+		fs = append(fs, fail("no_id_squatting", cl, sitePS, fmt.Sprintf("honest key holder %s (not connected, not blacklisted) was refused: %s", auth, ans)))
+	}
+	if ansArg(ans, "why") == "timeout" {
+		fs = append(fs, fail("switch_live", "switch-hung", sitePS, "no verdict on a connection attempt: "+ans))
 	}
 	return fs
 }
@@ -695,7 +757,78 @@ func genHS(g *hx.Gen, scen string) {
 	}
 }
 
+var swKeys = []string{"A", "B", "C", "D", "E", "F"}
+
+func swConnOp(g *hx.Gen, kind string, auth, other string) string {
+	tr := fmt.Sprintf("k=%d seed=%d j=%d", pickInt(g, ks), g.Rng.Intn(1000), g.Rng.Intn(2))
+	g.Count("sw:" + kind)
+	switch kind {
+	case "honest":
+		return fmt.Sprintf("swconn auth=%s claim=%s %s", auth, auth, tr)
+	case "impersonate":
+		return fmt.Sprintf("swconn auth=%s claim=%s %s", auth, other, tr)
+	case "claimself":
+		return fmt.Sprintf("swconn auth=%s claim=S %s", auth, tr)
+	case "asself":
+		return fmt.Sprintf("swconn auth=S claim=S %s", tr)
+	case "cacheid":
+		return fmt.Sprintf("swconn auth=%s claim=%s cache=%s %s", auth, auth, other, tr)
+	case "impersonate+cache":
+		return fmt.Sprintf("swconn auth=%s claim=%s cache=%s %s", auth, other, auth, tr)
+	case "garbage", "silent":
+		return fmt.Sprintf("swconn auth=%s claim=%s %s", auth, kind, tr)
+	case "othernet":
+		return fmt.Sprintf("swconn auth=%s claim=%s net=other-chain %s", auth, auth, tr)
+	case "badversion":
+		return fmt.Sprintf("swconn auth=%s claim=%s ver=%s %s", auth, auth, []string{"9.0.0", "1.2"}[g.Rng.Intn(2)], tr)
+	case "badmoniker":
+		return fmt.Sprintf("swconn auth=%s claim=%s mon=bad %s", auth, auth, tr)
+	}
+	return "swconn auth=A claim=A " + tr
+}
+
+var swKinds = []string{"honest", "honest", "honest", "impersonate", "impersonate", "impersonate", "claimself", "asself", "cacheid", "impersonate+cache",
+	"garbage", "silent", "othernet", "badversion", "badmoniker"}
+
+func genSwitch(g *hx.Gen) {
+	ops := []string{hx.CaseOp("switch"), "swnew"}
+	n := 3 + g.Rng.Intn(8)
+	for i := 0; i < n; i++ {
+		a := swKeys[g.Rng.Intn(len(swKeys))]
+		o := swKeys[g.Rng.Intn(len(swKeys))]
+		for o == a {
+			o = swKeys[g.Rng.Intn(len(swKeys))]
+		}
+		switch r := g.Rng.Intn(12); {
+		case r == 0:
+			g.Count("sw:blacklist")
+			ops = append(ops, "swblack key="+a)
+		case r == 1:
+			g.Count("sw:drop")
+			ops = append(ops, "swdrop key="+a)
+		default:
+			ops = append(ops, swConnOp(g, swKinds[g.Rng.Intn(len(swKinds))], a, o))
+		}
+	}
+	// every key holder finally tries honestly: nobody may have been squatted out
+	for _, k := range swKeys[:2+g.Rng.Intn(4)] {
+		ops = append(ops, swConnOp(g, "honest", k, k))
+	}
+	g.Case("switch admission", ops, true)
+}
+
 func (P) Generate(g *hx.Gen) {
+	// corpus of the switch-level identity clause
+	tr := "k=0 seed=1 j=0"
+	g.Case("corpus impersonation then victim", []string{hx.CaseOp("switch"), "swnew", "swconn auth=B claim=C " + tr, "swconn auth=C claim=C " + tr}, true)
+	g.Case("corpus same ID claimed by two keys", []string{hx.CaseOp("switch"), "swnew", "swconn auth=A claim=C " + tr, "swconn auth=B claim=C " + tr, "swconn auth=C claim=C " + tr}, true)
+	g.Case("corpus blacklisted ID claimed by another key", []string{hx.CaseOp("switch"), "swnew", "swblack key=D", "swconn auth=E claim=D " + tr, "swconn auth=D claim=D " + tr, "swconn auth=E claim=E " + tr}, true)
+	g.Case("corpus claims the switch's key", []string{hx.CaseOp("switch"), "swnew", "swconn auth=A claim=S " + tr, "swconn auth=S claim=S " + tr, "swconn auth=A claim=A " + tr}, true)
+	g.Case("corpus duplicate and reconnect", []string{hx.CaseOp("switch"), "swnew", "swconn auth=A claim=A " + tr, "swconn auth=A claim=A " + tr, "swdrop key=A", "swconn auth=A claim=A " + tr}, true)
+	g.Case("corpus blacklist and forged CachePeerID", []string{hx.CaseOp("switch"), "swnew", "swblack key=D", "swconn auth=D claim=D cache=E " + tr}, true)
+	for i := 0; i < g.Pick(60, 1200); i++ {
+		genSwitch(g)
+	}
 	// corpus
 	g.Case("corpus frame boundary", []string{hx.CaseOp("stream"), "sc k=3 seed=1", "w side=a d=r:1:32769", "r side=b n=32768", "r side=b n=5", "r side=b n=5"}, true)
 	g.Case("corpus reflection", []string{hx.CaseOp("hs"), "hs scen=reflect k=0 seed=1"}, true)
